@@ -2032,7 +2032,15 @@ class Interp:
             if isinstance(v, ast.Constant):
                 parts.append(v.value)
             else:
-                parts.append(_as_term(self.eval(v.value, state, frame)))
+                pv = self.eval(v.value, state, frame)
+                spec = v.format_spec
+                binary = isinstance(spec, ast.JoinedStr) and spec.values and \
+                    isinstance(spec.values[-1], ast.Constant) and \
+                    str(spec.values[-1].value)[-1:] in 'xXob' and \
+                    v.conversion == -1
+                if not binary:
+                    self.models.int_to_text(self, pv, state, v, 'f-string')
+                parts.append(_as_term(pv))
         if all(isinstance(p, str) for p in parts):
             return ''.join(parts)
         return Sym('format', 'fstring', tuple(parts))
